@@ -1,7 +1,7 @@
 (* C12 -- the refinement theorem: every operation (table operations and the
    derived ones) and every operation history. *)
 From Coq Require Import List Bool NArith Arith Lia.
-From SV Require Import C12.Ops C12.Spec C12.Concrete C12.ProofsBase C12.ProofsOps C12.ProofsSpec.
+From SV Require Import C12.Ops C12.Spec C12.Concrete C12.ProofsBase C12.ProofsOps C12.ProofsSpec C12.ProofsCount.
 Import ListNotations.
 
 Lemma init_nb_ok : forall fuel size n,
@@ -173,6 +173,8 @@ Section StepProofs.
       exists s'. split; auto. rewrite (delete_all_filter eqb eqb_spec) in R1; auto.
       rewrite keys_as_set. eapply keys_nodup; eauto.
     - (* set symmetric difference *) destruct (symdiff_ok_c s l l0 HR) as (s' & H1 & R1). rewrite H1. cbn. eauto.
+    - (* issubset *) rewrite (is_subset_ok eqb eqb_spec h s l l0 HR). eauto.
+    - (* issuperset *) rewrite (is_superset_ok eqb eqb_spec h s l l0 HR). eauto.
   Qed.
 
   (* ---- every history ---- *)
